@@ -113,15 +113,7 @@ Definition scalar_cfg (p : N) (s : list N) (res : option ip) : cfg :=
      c_raprefix := if p =? 7 then map p_len one else [];
      c_subnets := [] |}.
 
-(* apply-subnet: the end point of the expanded range is C11's subject (the
-   last host address is being added there); either end point is accepted *)
-Definition value_agrees (p : N) (model impl : list N) : bool :=
-  match p, model, impl with
-  | 2, [mc; mlo; mhi], [ic; ilo; ihi] =>
-    if mc =? 0 then (ic =? 0)
-    else (ilo =? mlo) && ((ihi =? mhi) || (ihi =? mhi + 1)) && (ic =? ihi - ilo + 1)
-  | _, _, _ => toks_eqb model impl
-  end.
+Definition value_agrees (p : N) (model impl : list N) : bool := toks_eqb model impl.
 
 (* predicate 8: the loader accepted a duration string but the value it stored
    is not the sum of its parts (silent wrap-around) *)
@@ -405,6 +397,9 @@ Fixpoint offending_key (ld : yaml -> N) (h : list (yaml * yaml)) (impl : list N)
   | _, _ => 0
   end.
 
+Definition tok_pool (ts : list N) : option (option N * list N) :=
+  match ts with 0 :: r => Some (None, r) | 1 :: n :: r => Some (Some n, r) | _ => None end.
+
 Definition check_doc8 (ts : list N) : list N :=
   match ts with
   | kind :: r =>
@@ -433,14 +428,18 @@ Definition check_doc8 (ts : list N) : list N :=
                           | _ => v_diff [class_of model; 0; bad_key tt]
                           end
             | 0 :: rest =>
-              match tok_summary rest with
-              | Some (c, [sv]) =>
+              match match tok_summary rest with
+                    | Some (c, r2) => match tok_listb bound tok_pool r2 with Some (pools, r3) => Some (c, pools, r3) | None => None end
+                    | None => None
+                    end with
+              | Some (c, pools, [sv]) =>
                 if 10 <=? sv then v_viol (serve_pred sv)
                 else if negb (cfg_safe c) then v_viol 7
                 else match model with
                      | Ok t =>
                        let d := cfg_diff (cfg_of_top t) c in
                        if negb (d =? 0) then v_diff [3; d]
+                       else if negb (list_eqb (opt_eqb N.eqb) (map pool_size (t_policies t)) pools) then v_diff [3; 7]
                        else if negb (serve_no_panic c clients) then v_diff [2]
                        else v_ok (if kind =? 1 then 51 else if kind =? 2 then 53 else 55)
                      | _ => v_diff [class_of model; err_of model; bad_key tt]
